@@ -132,6 +132,9 @@ EINSUMS = [
     ("ij,ij,ij->ij", [(2, 2), (2, 2), (2, 2)]), ("ijk,k->ij", [(2, 2, 3), (3,)]), ("ij->i", [(1, 3)]), ("i->", [(3,)]),
     ("ii->", [(3, 3)]), (",i->i", [(), (3,)]), ("i,->i", [(3,), ()]), ("ab,cd->abcd", [(2, 1), (1, 2)]), ("...,...->...", [(2, 3), (3,)]),
     ("ij...,jk...->ik...", [(2, 3, 2), (3, 2, 2)]), ("aab->b", [(2, 2, 3)]), ("ij,ji->", [(2, 3), (3, 2)]),
+    # an operand that lacks TWO OR MORE of the broadcast ("...") dimensions, ellipsis trailing / leading / in the middle
+    ("i...,i...->...", [(3,), (3, 2, 2)]), ("ij...,jk...->ik...", [(2, 3), (3, 2, 2, 3)]), ("...i,...i->...", [(3,), (2, 2, 3)]),
+    ("i...j,j->i...", [(2, 3), (3,)]), ("i...j,ij->i...", [(2, 2, 3, 3), (2, 3)]), ("...,...->...", [(), (2, 3)]),
 ]
 
 
